@@ -109,7 +109,7 @@ pub fn stb_query() {
     assert!(r.is_ok(), "C16/StbCommand::query/ok");
     assert!(d == d0, "C16/StbCommand::query/reading-changes-nothing");
     assert!(ctx.mav == mav, "C16/StbCommand::query/context-mav-unchanged");
-    let v = spec_parse_dec(&out);
+    let v = spec_parse_dec5(&out);
     assert!(v.is_some(), "C16/StbCommand::query/response-is-NR1");
     let v = v.unwrap() as u8;
     let e = dev_stb(&d0, mav);
